@@ -3,6 +3,7 @@ open Gram_model
 open Conv
 open Sexp
 open Evalcommon
+open Ctxcommon
 
 let case_c06 src = L [ A "c06"; A (Gen_prog.hex_of_string src) ]
 let case_pair a b = L [ A "unifypair"; L [ A "ctx" ]; sexp_of_term a; sexp_of_term b ]
@@ -38,8 +39,26 @@ let gen ~(tier : string) ~(seed : int) ~(emit : Sexp.t -> unit) : unit =
       let budget = if tier = "quick" then 4000 else 40000 in
       if n * n <= budget then Array.iter (fun a -> Array.iter (fun b -> emit (case_pair a b)) arr) arr
       else for _ = 1 to budget do emit (case_pair (Rng.pick_arr r arr) (Rng.pick_arr r arr)) done) typed;
-  (* random larger well-typed closed terms against their own reducts *)
-  ()
+  (* open terms under a context of two integer parameters: stuck arithmetic, comparisons and conditionals on
+     neutral operands are only reachable this way (a closed ground program never leaves a neutral subterm) *)
+  let bs = [ Param TInt; Param TInt ] in
+  let g = ctx_oracle bs in
+  let otbl = Gen_terms.enum_exact 2 (if tier = "quick" then 3 else 4) in
+  let otyped = Hashtbl.create 16 in
+  Array.iter (fun l -> List.iter (fun t ->
+      if scoped 2 t && not (has_hole t) then
+        match (if nf (nat_of_int 100) g t = None then None else infer (nat_of_int 100) g t) with
+        | Some ty -> (match nf (nat_of_int 100) g ty with
+            | Some nty -> Hashtbl.replace otyped nty (t :: (try Hashtbl.find otyped nty with Not_found -> []))
+            | None -> ())
+        | None -> ()) l) otbl;
+  Hashtbl.iter (fun _ ts ->
+      let arr = Array.of_list ts in
+      let n = Array.length arr in
+      let budget = if tier = "quick" then 6000 else 60000 in
+      let emitp a b = emit (L [ A "unifypair"; ctx_sexp bs; sexp_of_term ~depth:2 a; sexp_of_term ~depth:2 b ]) in
+      if n * n <= budget then Array.iter (fun a -> Array.iter (fun b -> emitp a b) arr) arr
+      else for _ = 1 to budget do emitp (Rng.pick_arr r arr) (Rng.pick_arr r arr) done) otyped
 
 let lit_like (t : term) = match t with TLit _ | TTrue | TFalse -> true | _ -> false
 
@@ -53,7 +72,9 @@ let rec erase_lam_ann (t : term) : term =
 
 let check (case : Sexp.t) (res : Sexp.t) : [ `Ok | `Mismatch of string | `Property of string ] * bool =
   let closed_case = (match case with
-      | L [ A "unifypair"; _; a; b ] -> (try is_closed (term_of_sexp a) && is_closed (term_of_sexp b) with _ -> false)
+      | L [ A "unifypair"; cx; a; b ] ->
+        (try let bs = blocks_of_sexp cx in let d = depth_of bs in
+           ctx_scoped bs && scoped d (term_of_sexp a) && scoped d (term_of_sexp b) with _ -> false)
       | L [ A "whnf"; _; a ] -> (try is_closed (term_of_sexp a) with _ -> false)
       | _ -> true) in
   if not closed_case then (`Ok, false) else
@@ -86,14 +107,15 @@ let check (case : Sexp.t) (res : Sexp.t) : [ `Ok | `Mismatch of string | `Proper
     else (match whnf fuel_infer [] t with
         | Some mw -> ((if mw = term_of_sexp w then `Ok else `Mismatch "normalize_weak_head differs from the model"), mw <> t)
         | None -> (`Ok, false))
-  | L [ A "unifypair"; _; a; b ], L [ A "unified"; ab; ba; se; ctx ] ->
+  | L [ A "unifypair"; cx; a; b ], L [ A "unified"; ab; ba; se; ctx ] ->
+    let g = ctx_oracle (blocks_of_sexp cx) in
     let a = term_of_sexp a and b = term_of_sexp b in
     let ab = atom ab = "1" and ba = atom ba = "1" in
     if atom ctx <> "1" then (`Property "unify does not restore its context", true)
     else if ab <> ba then (`Property "the judgement is not symmetric on hole-free terms: unify(a, b) <> unify(b, a)", true)
     else if a = b && not ab then (`Property "a term is not judged equal to itself", true)
     else if (atom se = "1") <> (erase_lam_ann a = erase_lam_ann b) then (`Property "syntactically_equal is not alpha-equality modulo annotations", true)
-    else (match nf fuel_infer [] a, nf fuel_infer [] b with
+    else (match nf fuel_infer g a, nf fuel_infer g b with
         | Some na, Some nb ->
           if ab <> (na = nb) then (`Property (Printf.sprintf "unify says %b but the normal forms are %s" ab (if na = nb then "equal" else "different")), true)
           else (`Ok, true)
